@@ -95,6 +95,7 @@ fn main() {
 			props::conc::run(&cfg, &plan)
 		}
 		"dupfam" => props::dupfam::run(&cfg),
+		"keyfam" => props::keyfam::run(&cfg),
 		"nonacqfam" => props::nonacqfam::run(&cfg),
 		"orderfam" => props::orderfam::run(&cfg),
 		"seqfam" => props::seqfam::run(&cfg),
